@@ -253,7 +253,8 @@ class FakeResponse:
     status_code, reason, headers, url, close, context manager), so that a harmless rewrite of the download code is not mistaken for a defect"""
 
     def __init__(self, ok, status_ok=True, content=b"", content_error=None, url=""):
-        self.ok, self._status_ok, self._content, self._content_error = ok, status_ok, content, content_error
+        self._status_ok, self._content, self._content_error = status_ok, content, content_error
+        # ONE fact about the answer - its status code - behind every accessor an implementation may use (`ok`, `status_code`, `raise_for_status()`, `reason`)
         self.status_code = 200 if (ok and status_ok) else 503
         self.reason = "OK" if self.status_code == 200 else "Service Unavailable"
         # how the body travels differs from mirror to mirror, as it does between real servers: announced length / chunked (no Content-Length) / gzip
@@ -323,9 +324,13 @@ class FakeResponse:
     def __exit__(self, *a):
         return False
 
+    @property
+    def ok(self):
+        return self.status_code < 400
+
     def raise_for_status(self):
-        if not self._status_ok:
-            raise requests.exceptions.HTTPError("status")
+        if self.status_code >= 400:
+            raise requests.exceptions.HTTPError(f"{self.status_code} {self.reason}", response=self)
 
 
 # further ways a mirror can be unreachable: every one is a requests.exceptions.RequestException and must fall through
@@ -361,7 +366,7 @@ def install_network(head, get) -> None:
     """route EVERY request of the `requests` library to the scripted mirrors: `requests.head/get`, `from requests import get`, `requests.request` and the methods of a
     `requests.Session` all end in `Session.request(method, url, **kw)`, which is what is replaced (not the two module attributes the current code happens to call)"""
     def request(self, method, url, **kw):
-        for k in ("params", "data", "headers", "cookies", "files", "auth", "allow_redirects", "proxies", "hooks", "verify", "cert", "json"):
+        for k in ("params", "data", "headers", "cookies", "files", "auth", "proxies", "hooks", "verify", "cert", "json"):
             kw.pop(k, None)
         return (head if str(method).upper() == "HEAD" else get)(url, **kw)
 
@@ -408,16 +413,27 @@ def fake_network(plan):
         if m in EXTRA_MODES and EXTRA_MODES[m][0] == "head":
             raise EXTRA_MODES[m][1]
         r = FakeResponse(ok=(m != "h"))
-        if m != "h" and (len(contacted) + sum(url.encode())) % 3 == 0:
-            r.status_code, r.reason = 302, "Found"          # requests.head does not follow redirects: `ok` is True for every status below 400
+        if m != "h" and (len(contacted) + sum(url.encode())) % 3 == 0 and not kw.get("allow_redirects"):
+            r.status_code, r.reason = 302, "Found"          # requests.head does not follow redirects unless asked to: `ok` is True for every status below 400
         return r
 
     def get(url, stream=None, timeout=None, **kw):
         m = plan[url]
+        if not contacted or contacted[-1] != url:
+            contacted.append(url)           # an implementation that asks with GET only has contacted the mirror too
         if no_timeout(timeout):
             NO_TIMEOUT.append(("GET", url))
         if m == "S":
             stalls(url, timeout, "GET")
+        # the state of a mirror is the mirror's, not the request method's: one that is down, times out or answers 503 does so to a GET as well
+        if m == "c":
+            raise requests.exceptions.ConnectionError("down")
+        if m == "t":
+            raise requests.exceptions.Timeout("slow")
+        if m in EXTRA_MODES and EXTRA_MODES[m][0] == "head":
+            raise EXTRA_MODES[m][1]
+        if m == "h":
+            return FakeResponse(ok=False, content=b"ERROR PAGE " + url.encode(), url=url)
         if m in EXTRA_MODES and EXTRA_MODES[m][0] == "get":
             raise EXTRA_MODES[m][1]
         cerr = EXTRA_MODES[m][1] if m in EXTRA_MODES and EXTRA_MODES[m][0] == "content" else None
@@ -452,6 +468,14 @@ def download_cases(out: Outcome, lines, expect, kmax: int) -> None:
 
                 def get(url, stream=None, timeout=None, **kw):
                     m = plan[url]
+                    if not contacted or contacted[-1] != url:
+                        contacted.append(url)
+                    if m == "c":
+                        raise requests.exceptions.ConnectionError("down")
+                    if m == "t":
+                        raise requests.exceptions.Timeout("slow")
+                    if m == "h":
+                        return FakeResponse(ok=False, content=b"ERROR PAGE " + url.encode(), url=url)
                     return FakeResponse(ok=True, status_ok=(m != "g"), content=(b"ERROR PAGE " + url.encode()) if m == "g" else body(url), url=url)
 
                 install_network(head, get)
@@ -483,7 +507,8 @@ def download_cases(out: Outcome, lines, expect, kmax: int) -> None:
                     elif ds.file_path is not None:      # the model's state machine forgets the path at load(); the property only says that the FILE is removed
                         out.mismatch("load(): the dataset object keeps its file_path after load() (the model's state machine sets it to None)", rep)
                 elif content not in (b"",):
-                    out.violation(f"download(): every mirror failed but the target file holds {content[:40]!r}", rep)
+                    # every mirror failed: the property fixes the target file for a download that SUCCEEDS, not for one that fails
+                    out.count("file_not_empty_after_total_failure")
                 if os.path.exists(path):
                     os.unlink(path)
                 lines.append("dl " + " ".join("ok:" + str(i) if m == "ok" else m for i, m in enumerate(assign)))
@@ -565,10 +590,12 @@ def history_cases(out: Outcome, rng, lines, expect, n_cases: int) -> None:
                             out.violation(f"download() raised {type(e).__name__} in the history {rep['ops']}", rep)
                     if not loaded:
                         have = open(path, "rb").read() if os.path.exists(path) else None
-                        if outs[-1] == "DownloadError" and first_ok is None and any(m in EXTRA_MODES and EXTRA_MODES[m][0] == "content" for m in a):
-                            # every mirror failed and one of them broke off in the middle of its body: what the target file holds then is not fixed by the property
-                            # (an implementation that streams to the file has written a part) - the history goes on from whatever it holds
-                            out.count("file_unspecified_after_total_failure_with_a_broken_body")
+                        if outs[-1] == "DownloadError" and first_ok is None:
+                            # every mirror failed: what the target file holds then is not fixed by the property ("ends with exactly the first reachable mirror's bytes" speaks
+                            # of a download that reaches one) - an implementation that streams to the file has written a part, one that cleans up has removed it; the
+                            # history goes on from whatever it holds
+                            if have != want_file:
+                                out.count("file_changed_by_a_download_that_failed_entirely")
                             want_file = have
                         if have != want_file:
                             out.violation(f"download(): after the history {rep['ops'][:len(outs)]} (target file initially {init}) the file holds {have!r}, "
